@@ -175,6 +175,21 @@ def run_case(case: Dict[str, Any], ctx) -> None:
         ctx.count("grads:compared", len(gu))
         from ..instruments import grads_differ
         bad_grad = grads_differ(list(gu), list(gr), 1e-9, names)
+    if not bad_out and not bad_grad and case["seed"] % 3 == 0:
+        # the converted module called as it is at evaluation time: under torch.no_grad(), inputs without requires_grad
+        try:
+            with torch.no_grad():
+                out_n = us(*[t.detach().clone() for t in inputs])
+            outs_n = list(out_n) if isinstance(out_n, (tuple, list)) else [out_n]
+            ctx.count("mode:no_grad-call-compared")
+            for i, (yn, yu) in enumerate(zip(outs_n, outs_u)):
+                sc_ = max(float(yu.detach().abs().max()), 1e-300)
+                if tuple(yn.shape) != tuple(yu.shape) or not float((yn - yu.detach()).abs().max()) / sc_ <= 1e-10:
+                    ctx.violation("C16:no_grad-call-of-the-converted-module-computes-something-else", f"output {i} differs from the training-mode call", source=src,
+                                  features=feats)
+                    break
+        except Exception as e:
+            ctx.violation("C16:converted-module-raises-under-no_grad:" + fkey(e), repr(e), source=src, features=feats)
     if replace_case:
         ctx.count("replace:checked")
     if bad_out or bad_grad:
